@@ -63,7 +63,7 @@ func main() {
 				return chk.Finish(*verif, *out, stats)
 			}
 			eng := paths.NewEngine(p.InModule)
-			x := &rules.Ctx{P: p, E: eng, C: chk, Tier: *tier}
+			x := &rules.Ctx{P: p, E: eng, C: chk, Tier: *tier, VerifDir: *verif}
 			pr.Run(x)
 			stats["packages_loaded"] = len(p.Pkgs)
 			stats["functions_path_enumerated"] = eng.FuncsEnumerated
